@@ -45,6 +45,8 @@ type verifDialMon struct {
 	fired     bool
 	events    int
 	selfConnects int
+	sockets      int
+	notAvail     int
 	// what the kernel last said about the connection attempt on a descriptor:
 	// 1 established (connect 0/EISCONN, SO_ERROR 0 + peer name, SO_ERROR EISCONN), 2 failed
 	verdict [16]int
@@ -74,6 +76,12 @@ func verifDialSocket(domain, typ, proto int) (int, error) {
 	if verifStubBool("socket.fails") {
 		return -1, syscall.EMFILE
 	}
+	// one dial opens at most three sockets (the first attempt and two re-tries after a
+	// self-connect or a spurious EADDRNOTAVAIL): the retry loop does not look at the context, so
+	// its bound is what keeps the dial within its timeout
+	verifD.sockets++
+	verifAssert(verifD.sockets <= 3, "C14/dial-retries-without-bound")
+	verifAssume(verifD.sockets <= 4)
 	fd := verifD.next
 	verifD.next++
 	verifD.open[fd] = 1
@@ -126,6 +134,12 @@ func verifDialLookupIPAddr(r *net.Resolver, ctx context.Context, host string) ([
 }
 
 func verifDialConnect(fd int, sa syscall.Sockaddr) error {
+	// no local port available right now: may persist over every attempt of the dial
+	if verifD.ctlAdd == 0 && verifD.events == 0 && verifD.selfConnects == 0 && verifStubBool("connect.eaddrnotavail") {
+		verifD.notAvail++
+		verifD.verdict[fd] = 2
+		return syscall.EADDRNOTAVAIL
+	}
 	switch verifPick("connect.result", 0, 4) {
 	case 0:
 		verifD.verdict[fd] = 1
@@ -176,6 +190,10 @@ func verifDialEpollCtl(epfd, op, fd int, event *epollevent) error {
 	d := verifD
 	switch op {
 	case 1:
+		if verifStubBool("epoll.add.fails") {
+			// e.g. ENOSPC (max_user_watches) or ENOMEM: nothing is registered
+			return syscall.ENOSPC
+		}
 		d.ctlAdd++
 		if event.events&0x4 != 0 {
 			d.registered[fd] = 2
